@@ -111,7 +111,14 @@ impl Decoder for Codec {
 
     fn decode(&mut self, src: &mut BytesMut) -> Result<Option<Self::Item>, Self::Error> {
         if let Some(ref mut payload) = self.payload {
-            Ok(match payload.decode(src)? {
+            // the payload decoder only fails on malformed chunked framing; that is a protocol
+            // error made by the client (answered with 400), not a transport failure
+            let item = payload.decode(src).map_err(|err| {
+                tracing::debug!("malformed request payload framing: {}", err);
+                ParseError::Header
+            })?;
+
+            Ok(match item {
                 Some(PayloadItem::Chunk(chunk)) => Some(Message::Chunk(Some(chunk))),
                 Some(PayloadItem::Eof) => {
                     self.payload.take();
